@@ -81,8 +81,10 @@ def _same_value_and_type(original: Any, restored: Any) -> bool:
     if type(original) is not type(restored):
         return False
     if isinstance(original, dict):
+        # JSON object keys are plain strings: any other key type (including subclasses of str) is altered
         return len(original) == len(restored) and all(
-            key in restored and _same_value_and_type(value, restored[key]) for key, value in original.items()
+            type(key) is str and key in restored and _same_value_and_type(value, restored[key])
+            for key, value in original.items()
         )
     if isinstance(original, list):
         return len(original) == len(restored) and all(_same_value_and_type(a, b) for a, b in zip(original, restored))
